@@ -70,6 +70,24 @@ fn main() {
         }
         i += 1;
     }
+    // --replay: re-execute the recorded run (every random choice derives from the seed and the tier, and
+    // enumerations do not depend on either), and say whether the recorded signature shows up again
+    let mut replay_sig: Option<String> = None;
+    if let Some(r) = &replay {
+        if let Some(s) = r.get("seed").and_then(|x| x.as_u64()) {
+            seed = s;
+        }
+        match r.get("tier").and_then(|x| x.as_str()) {
+            Some("thorough") => tier = Tier::Thorough,
+            Some("quick") => tier = Tier::Quick,
+            _ => {},
+        }
+        replay_sig = r.get("signature").and_then(|x| x.as_str()).map(|x| x.to_string());
+        if let Some(argv) = r.get("argv") {
+            println!("this replay file records a sanitizer stage; re-run it with: {}", argv);
+        }
+        println!("[replay] property={} seed={} tier={} signature={:?}", id, seed, tier.name(), replay_sig);
+    }
     let Some(f) = checks::lookup(&id) else {
         eprintln!("unknown check {id}");
         std::process::exit(EXIT_INCONCLUSIVE)
@@ -104,6 +122,10 @@ fn main() {
     }
 
     let (level, rule, exhaustive) = f(&mut ctx);
+    if let Some(sig) = &replay_sig {
+        let again = ctx.part.violations.iter().any(|v| &v.signature == sig);
+        println!("[replay] recorded signature {} {}", sig, if again { "REPRODUCED" } else { "did not reproduce on the current tree" });
+    }
     let code = ctx.finish(level, &rule, exhaustive);
     std::process::exit(code);
 }
